@@ -73,7 +73,7 @@ def main():
     ctx.rule = ("TLC enumerates (a) every phased history build / destroy / sweep-or-query / rebuild-and-assert of up to 11 steps "
                 "over 4 instances (Person, Company), (b) every unphased history of 8 steps; each is replayed on the real "
                 "registry (gc disabled, reclamation only by the modelled drop/collect); after every p.works_for = c the graph "
-                "relations and the three managed fields are compared with the model's facts. Non-trivial = an assertion that "
+                "relations and the three managed fields are compared with the model's facts; every fifth history is replayed again with instances that are falsy objects. Non-trivial = an assertion that "
                 "happens after at least one instance died; distinct by history.")
     ctx.run_tlc("SymbolGraph", "SymbolGraph_mc_quick.cfg" if not thorough else "SymbolGraph_mc.cfg", expect="ok")
     ctx.run_tlc("SymbolGraph", "SymbolGraph_sw_StaleRelationIndex.cfg", expect="violation")
@@ -85,6 +85,8 @@ def main():
     hs = hs1 + hs2
     ctx.cov["histories_in_bound"] = {"phased": t1, "unphased_with_relate": t2}
     cases = [{"mode": "c14", "h": h} for h in hs]
+    # the same histories with instances whose truth value is False while they are alive (every fifth history)
+    cases += [{"mode": "c14", "h": h, "falsy": True} for h in hs[::5]]
     results = replay("sg", cases)
     ctx.replayed = len(cases)
     names = [f"h{i}" for i in range(len(cases))]
@@ -120,7 +122,7 @@ def main():
                     bad = {"step": m, "observed": o, "problems": problems}
             if m["a"] in ("drop", "collect"):
                 died = True
-        ctx.case(c["h"], nontrivial, sample={"history": [(s["a"], s.get("o", s.get("p")), s.get("c")) for s in c["h"]],
+        ctx.case([c["h"], "falsy"] if c.get("falsy") else c["h"], nontrivial, sample={"history": [(s["a"], s.get("o", s.get("p")), s.get("c")) for s in c["h"]],
                                              "last_observation": r["steps"][-1]})
         if bad is None:
             au = sgcommon.judge_audit(c["h"], r)
@@ -129,7 +131,7 @@ def main():
                 bad["problems"] = ["after the assertions a domain-less query no longer sees each live instance once"] + bad["problems"]
         reuse += r.get("addr_reuse", 0)
         if bad:
-            ctx.violation({"history": c["h"], **bad}, note="effect of asserting a relation depends on the process's past")
+            ctx.violation({"history": c["h"], "falsy_instances": bool(c.get("falsy")), **bad}, note="effect of asserting a relation depends on the process's past")
     ctx.cov["address_reuse_observed"] = reuse
     prefix_suffix(ctx, thorough)
     v = sgcommon.validate_h1(ctx, results, names, pinned=False)
